@@ -38,6 +38,7 @@ type permInfo struct {
 	LengthGuard string            `json:"lengthGuard"`
 	Instances   []string          `json:"instances"`
 	RowLens     map[string]string `json:"roundKeyRowLengths"`
+	Triples     [][3]int          `json:"triples"`
 }
 
 func srcStr(n ast.Node) string {
@@ -488,6 +489,16 @@ func (p *pkgCtx) translatePermutations(cfg towerPkg, rec func(key string, v *var
 	if len(f.decl.Body.List) > 0 {
 		info.LengthGuard = srcStr(f.decl.Body.List[0])
 	}
+	nret := 0
+	ast.Inspect(f.decl.Body, func(m ast.Node) bool {
+		if r, ok := m.(*ast.ReturnStmt); ok && !(len(r.Results) == 1 && exprStr(r.Results[0]) == "nil") {
+			nret++
+		}
+		return true
+	})
+	if g, ok := firstStmt(f.decl.Body).(*ast.IfStmt); !ok || nret != 1 || g.Else != nil || g.Init != nil || len(g.Body.List) != 1 || !isErrReturn(g.Body.List[0]) {
+		die("%s: Permutation does not start with the only error return", cfg.dir)
+	}
 	for _, w := range cfg.widths {
 		sets := [][2]int{{dflt[1], dflt[2]}}
 		var fn []string
@@ -518,6 +529,7 @@ func (p *pkgCtx) translatePermutations(cfg towerPkg, rec func(key string, v *var
 			rec(v.name, v)
 			if v.err == "" {
 				info.Instances = append(info.Instances, v.name)
+				info.Triples = append(info.Triples, [3]int{w, rr[0], rr[1]})
 				if lens, e := p.rowLens(w, rr[0], rr[1]); e == "" {
 					info.RowLens[fmt.Sprintf("t%d_rf%d_rp%d", w, rr[0], rr[1])] = strings.Trim(fmt.Sprint(lens), "[]")
 				}
@@ -529,5 +541,35 @@ func (p *pkgCtx) translatePermutations(cfg towerPkg, rec func(key string, v *var
 			delete(info.FastPath, k) // not read by Permutation
 		}
 	}
+	// what the translator decided, as Lean data (Props/C14_perm_* state it)
+	var fp, inst []string
+	var fk []string
+	for k := range info.FastPath {
+		fk = append(fk, k)
+	}
+	sort.Strings(fk)
+	for _, k := range fk {
+		fp = append(fp, fmt.Sprintf("(%q, %q)", k, info.FastPath[k]))
+	}
+	for _, tr := range info.Triples {
+		inst = append(inst, fmt.Sprintf("(%d, %d, %d)", tr[0], tr[1], tr[2]))
+	}
+	p.consts = append(p.consts,
+		fmt.Sprintf("/-- first statement of `Permutation` (source text): the only reachable `return` of an error -/\ndef Permutation.lengthGuard : String := %q\n", info.LengthGuard),
+		fmt.Sprintf("/-- `NewParameters(t, rf, rp)` of `GetDefaultParameters` (hash.go) -/\ndef Permutation.defaultParameters : Nat × Nat × Nat := (%d, %d, %d)\n", dflt[0], dflt[1], dflt[2]),
+		fmt.Sprintf("/-- fast-path flags read by `Permutation` and the predicates NewParameters sets them from; the defs below are the path with every flag false -/\ndef Permutation.fastPath : List (String × String) := [%s]\n", strings.Join(fp, ", ")),
+		fmt.Sprintf("/-- the (width, rf, rp) at which `Permutation` is translated below -/\ndef Permutation.instances : List (Nat × Nat × Nat) := [%s]\n", strings.Join(inst, ", ")))
 	return info
+}
+
+func firstStmt(b *ast.BlockStmt) ast.Stmt {
+	if len(b.List) == 0 {
+		return nil
+	}
+	return b.List[0]
+}
+
+func isErrReturn(st ast.Stmt) bool {
+	r, ok := st.(*ast.ReturnStmt)
+	return ok && len(r.Results) == 1 && exprStr(r.Results[0]) != "nil"
 }
